@@ -93,6 +93,20 @@ CHECKS["C16"] = ("exploration", "DESIGN.md §7 C16",
     "client and the reference server put on the simulated wire.",
     "Input dimension is sampled, not scheduled; what the simulator adds is the population (real httpx requests, peer replies, noise) and the independent second party.")
 
+CHECKS["C11"] = ("exploration", "DESIGN.md §6, §7 C11",
+    "history simulation of one long-lived object: seeded interleavings of builder modifications and dictionary/text reads vs a path->values model; builder==parser; two builder call styles",
+    "Seeded histories of profile modifications (global options, all block kinds with options, pairs, data-transform, execute "
+    "and BeaconGate lists) interleaved with as_dict/properties/as_text/str/reparse reads on one C2Profile; after every read "
+    "the dictionary equals a model computed from the plan, from_text(as_text()) has an equal tree, text and dictionary, and "
+    "kwargs-style and call-style construction give equal trees; a parsed-from-text population covers variants.",
+    "No clock/network/storage is involved (weakest fit to the technique: the nondeterminism is the caller's operation order); string escaping (C12) is kept out of the domain.")
+CHECKS["C14"] = ("exploration", "DESIGN.md §6, §7 C14",
+    "history simulation of one shared object: all ordered pairs of 22 use kinds plus seeded histories vs a never-used twin and a fresh twin per operation; also an invariant in every World S session",
+    "All ordered pairs (thorough: triples) of the 22 kinds of use of one BeaconConfig and seeded histories up to 24 operations "
+    "on generated and real configurations: after every operation a deep snapshot equals a never-used twin's and the "
+    "operation's result equals the same operation on a brand-new configuration; mapping mutation raises TypeError.",
+    "Results are compared after canonicalisation; PRNG seams reseeded identically for both executions.")
+
 NOT_APPLICABLE = {
     "C02": "Pure function config-block bytes -> settings/views; no schedule, clock, fault, reader state or history for a simulator to control.",
     "C03": "Pure decoders of binary sub-encodings (bytes -> steps/strings); nothing to inject or interleave.",
